@@ -458,6 +458,7 @@ def reasm_mc_module(quick):
     for b in lbodies:
         for p in lpays:
             look.append({'id': len(look) + 1, 'line': b, 'hasPay': p is not None, 'pay': p or []})
+    look3 = [m for m in look if len(m['line']) <= 3 and m['pay'] in ([], [a], [nl]) and not (m['hasPay'] and not m['pay'])][:12]
     t = table()
     real = [{'id': i + 1, 'line': list(t.line[i]), 'hasPay': TABLE[i]['pay'] is not None, 'pay': list(TABLE[i]['pay'] or b'')}
             for i in range(len(TABLE)) if len(t.wire[i]) <= (24 if quick else 40) and i not in MARKER_MSGS]
@@ -470,6 +471,7 @@ RealMarker == %s
 MCMsgs2 == {%s}
 MCMsgs3 == {%s}
 MCMsgsL == {%s}
+MCMsgsL3 == {%s}
 RealMsgs == {%s}
 GenMsgs == {%s}
 NoDev == {}
@@ -477,8 +479,8 @@ DevModeLost == {"ModeLostAcrossReads"}
 DevNoLeft == {"MarkerWithoutLeftBoundary"}
 =============================================================================
 """ % (to_tla(REAL_MARKER), ',\n  '.join(to_tla(m) for m in msgs), ',\n  '.join(to_tla(m) for m in three),
-       ',\n  '.join(to_tla(m) for m in look), ',\n  '.join(to_tla(m) for m in real), ',\n  '.join(to_tla(m) for m in gen))
-    return txt, len(msgs), len(three), len(real), len(look)
+       ',\n  '.join(to_tla(m) for m in look), ',\n  '.join(to_tla(m) for m in look3), ',\n  '.join(to_tla(m) for m in real), ',\n  '.join(to_tla(m) for m in gen))
+    return txt, len(msgs), len(three), len(real), len(look), len(look3)
 
 
 REASM_CFG = """SPECIFICATION Spec
@@ -547,12 +549,14 @@ def reasm_signature(tr, info):
 def run_reassembly(ctx, wd):
     t = table()
     # ---- design check: every chunking of every sequence of small abstract messages --------------------
-    txt, n2, n3, nreal, nlook = reasm_mc_module(ctx.quick)
+    txt, n2, n3, nreal, nlook, nlook3 = reasm_mc_module(ctx.quick)
     with open(wd + '/BcpMC.tla', 'w') as f:
         f.write(txt)
     runs = [('Bcp 2 msgs', 'MCMsgs2', 'MCMarker', 2, 'NoDev', n2), ('Bcp 3 msgs', 'MCMsgs3', 'MCMarker', 3, 'NoDev', n3),
             ('Bcp real-bytes msgs', 'RealMsgs', 'RealMarker', 2, 'NoDev', nreal),
-            ('Bcp lookalike msgs', 'MCMsgsL', 'MCMarker', 2 if ctx.quick else 3, 'NoDev', nlook)]
+            ('Bcp lookalike msgs', 'MCMsgsL', 'MCMarker', 2, 'NoDev', nlook)]
+    if not ctx.quick:
+        runs.append(('Bcp 3 lookalike msgs', 'MCMsgsL3', 'MCMarker', 3, 'NoDev', nlook3))
     for label, ms, mk, mx, dev, n in runs:
         cfg = 'MC_%s_%d.cfg' % (ms, mx)
         with open(os.path.join(wd, cfg), 'w') as f:
